@@ -98,3 +98,33 @@ Proof. vm_compute. reflexivity. Qed.
 Example C01_glue_instance :
   glue dl_generic optext_generic (EBin K_Plus (EPre K_Minus x1) (ENot (EAtom true 2))).
 Proof. vm_compute. reflexivity. Qed.
+
+(** (c), proved: the glue statement for EVERY well-formed core tree (PrinterGlue.v), for arbitrary
+    tables satisfying the decidable side conditions, and for the 13 generated dialects
+    ([glue_dialects]: Pratt table, lexer table, operator spellings of the same dialect), where the
+    side conditions are discharged by computation on every run.  [gwf d e]: atoms below 10^40 (what
+    the model's [dec] prints), the model's four type names, operator keys of the dialect's tables;
+    no tree SHAPE is excluded since /repo commit 5371ab5 (Display decides on the operand's text). *)
+Require Import SqlV.PrinterGlue SqlV.PrinterGlueInst.
+
+Theorem C01_glue_tables : forall d ld u ot, glue_side_conditions d ld u ot = true ->
+  forall e, gwf d e = true -> lexview ld u (pp ot e) = Some (ptoks e).
+Proof. exact PrinterGlue.glue. Qed.
+Print Assumptions C01_glue_tables.
+
+Theorem C01_glue : forall d ld ot e, In (d, ld, ot) glue_dialects ->
+  gwf d e = true -> lexview ld std_uni (pp ot e) = Some (ptoks e).
+Proof. exact glue_generated. Qed.
+Print Assumptions C01_glue.
+
+(** what the parser returns satisfies the dialect part of [gwf]; [gextra] is the rest (bounds) *)
+Theorem C01_shape_gwf : forall d e, shape d e -> gextra e = true -> gwf d e = true.
+Proof. exact shape_gwf. Qed.
+Print Assumptions C01_shape_gwf.
+
+(** text level: parse -> print -> lex -> parse is the identity on canonical parser outputs of the core *)
+Theorem C01_text_roundtrip : forall d ld ot ts e, In (d, ld, ot) glue_dialects ->
+  parse_expr d ts = Ok (e, []) -> canonical e = true -> gextra e = true ->
+  exists toks, lexview ld std_uni (pp ot e) = Some toks /\ parse_expr d toks = Ok (e, []).
+Proof. exact text_roundtrip_generated. Qed.
+Print Assumptions C01_text_roundtrip.
